@@ -732,8 +732,44 @@ def replay_symbolic_reslice(r):
     return {"reproduced": False, "detail": "twice-split symbolic word reads the right bytes"}
 
 
+def replay_setitem_stop0(r):
+    bv = ByteVec(b"abcdef")
+    try:
+        bv[0:0] = b""
+    except Exception as e:  # noqa
+        return {"reproduced": True, "detail": f"bv = ByteVec(b'abcdef'); bv[0:0] = b'' raises {type(e).__name__}: {e} (the empty write at offset 0 is a no-op on a flat byte array)", "inputs": "bv[0:0] = b''"}
+    ok = bv.unwrap() == b"abcdef" and bv[0:0].unwrap() == b""
+    return {"reproduced": not ok, "detail": f"bv[0:0] = b'' leaves {bv.unwrap()!r}"}
+
+
+def subscript_cases():
+    """the subscript forms are the named operations with python's slice defaults: a missing bound is 0 / the length, a bound that
+    IS given (0 included) is taken as given"""
+    out = []
+
+    def harness(interp):
+        ctx = interp.ctx
+        for a in (None, 0, 2, 6):
+            for b in (None, 0, 2, 6):
+                bv = ByteVec(b"abcdef")
+                seen = []
+                interp.contracts["halmos.bytevec:ByteVec.set_slice"] = lambda i, args, kw: seen.append(tuple(args[1:]) + tuple(kw.values()))
+                interp.contracts["halmos.bytevec:ByteVec.slice"] = lambda i, args, kw: seen.append(tuple(args[1:]) + tuple(kw.values()))
+                val = b"xy"
+                want = (0 if a is None else a, 6 if b is None else b)
+                interp.call(ByteVec.__dict__["__setitem__"], [bv, slice(a, b), val], {})
+                ctx.oblige(f"bv[{a}:{b}] = v is set_slice({want[0]}, {want[1]}, v)", z3.BoolVal(len(seen) == 1 and seen[0][:2] == want and seen[0][2] is val), info={"seen": str(seen)})
+                seen.clear()
+                if want[0] <= want[1]:
+                    interp.call(ByteVec.__dict__["__getitem__"], [bv, slice(a, b)], {})
+                    ctx.oblige(f"bv[{a}:{b}] is slice({want[0]}, {want[1]})", z3.BoolVal(len(seen) == 1 and seen[0][:2] == want), info={"seen": str(seen)})
+
+    out.append(Case(f"{PROP}/bytevec.ByteVec.__setitem__", "every combination of missing / zero / inner / end bounds on a 6-byte sequence", harness, replay=replay_setitem_stop0, sources=("halmos.bytevec:ByteVec.__setitem__", "halmos.bytevec:ByteVec.__getitem__")))
+    return out
+
+
 def build_cases(tier="quick"):
-    return read_cases() + write_cases() + copy_cases() + chunk_contract_cases()
+    return subscript_cases() + read_cases() + write_cases() + copy_cases() + chunk_contract_cases()
 
 
 def bounded():
